@@ -275,6 +275,31 @@ def check(run):
     run.check(same, 'D6', 'Cell.__hash__' if not same else 'hash-function-of-repr-hash',
               f'__hash__ of two cells with equal representation hash: {vrepr(hv)[:50]} / {vrepr(hv3)[:50]}', whash)
     run.evaluations += 5
+    # a cell and the pruned branch standing for it (or an ordinary cell above that branch and the cell above the original): the same level-0
+    # hash, different representation hashes - they must compare unequal and live under different dictionary keys
+    it = mk(prog)
+    x = cm.forge_ordinary_child(it, 7, depth=0)        # a level-0 cell whose representation hash is the opaque H7
+    hx = x.attrs.get('_hash')
+    pr_bits = BA([Seg(16, 'k', format(1, '08b') + format(1, '08b')), Seg(256, 'b', hx), Seg(16, 'k', format(0, '016b'))])
+    pr = cm.new_cell(it, cm.tvm_bits(it, pr_bits), [], 1)
+    above_x = cm.new_cell(it, cm.tvm_bits(it, cm.data_bits(5, 'up')), [x])
+    above_p = cm.new_cell(it, cm.tvm_bits(it, cm.data_bits(5, 'up')), [pr])
+    for a_, b_, what in ((x, pr, 'a cell and the pruned branch that carries its hash'), (above_x, above_p, 'an ordinary cell and the same cell above the pruned child (level 1)')):
+        req = it.cmp(ast.Eq(), a_, b_, None)
+        l0a, l0b = cm.call_method(it, a_, 'get_hash', K(0)), cm.call_method(it, b_, 'get_hash', K(0))
+        pe = it.cmp(ast.Eq(), l0a, l0b, None)
+        premise = repr(it.vkey(l0a)) == repr(it.vkey(l0b)) or (isinstance(pe, K) and pe.v is True)
+        if not premise:
+            raise AnalysisError(f'D6 fixture: {what} do not have the same level-0 hash ({vrepr(l0a)[:40]} / {vrepr(l0b)[:40]})')
+        # (False, or undecided between the two representation-hash terms - an opaque H7 may or may not equal a digest; never True)
+        neq = (isinstance(req, K) and req.v is False) or (isinstance(req, Cond) and req.pol)
+        run.check(neq, 'D6', 'Cell.__eq__[virtual hash]' if not neq else f'eq-not-by-level0-hash:{what[:20]}',
+                  f'{what}: equal level-0 hashes, different representation hashes; == gives {vrepr(req)[:60]} (must be decided by the representation hashes, not be True)', weq)
+        ha, hb = models.builtin(it, 'hash', [a_], {}, None), models.builtin(it, 'hash', [b_], {}, None)
+        dif = repr(it.vkey(ha)) != repr(it.vkey(hb))
+        run.check(dif, 'D6', 'Cell.__hash__[virtual hash]' if not dif else f'hash-not-by-level0-hash:{what[:20]}',
+                  f'{what}: __hash__ gives {vrepr(ha)[:40]} / {vrepr(hb)[:40]} (must differ with the representation hash)', whash)
+        run.evaluations += 2
 
     # ---- D7 who may write, and construction routes
     protected = {'_hash', '_hashes', '_depths', 'level_mask', '_descriptors', '_data_bytes'}
